@@ -120,7 +120,7 @@ Definition junk_db_line (delim : N) (seps : bytes) (raw : bytes) : bool :=
   if mem ch_nl raw then false else
   match rtrim (ltrim raw) with
   | [] => true
-  | c :: _ as l =>
+  | (c :: _) as l =>
     if c =? ch_hash then true
     else
       let (db, r) := span (fun c => negb (c =? delim)) l in
